@@ -178,4 +178,430 @@ example : parseSCTListStrict [0, 0] = none := by decide
 example : parseSCTList [0, 7, 0, 2, 0xAA, 0xBB, 0, 1, 0xCC] = some [[0xAA, 0xBB], [0xCC]] := by decide
 example : parseSCTList [0, 6, 0, 2, 0xAA, 0xBB, 0, 1, 0xCC] = none := by decide
 
+/-! ### 1. one augmented certificate -/
+
+def optEntry (k : Bytes) : Option Bytes → List Entry
+  | some v => [(textItem k, encodeBytes v)]
+  | none => []
+
+/-- the entries in the order `EncodeTo` hands them to `EncodeMap` -/
+def augEntries (a : AugCert) : List Entry :=
+  [(textItem kCert, encodeBytes a.cert)] ++ optEntry kOcsp a.ocsp ++ optEntry kSct a.sct
+
+/-- the entries in bytewise order of the encoded keys: 63 "sct" < 64 "cert" < 64 "ocsp" -/
+def augSorted (a : AugCert) : List Entry :=
+  optEntry kSct a.sct ++ ([(textItem kCert, encodeBytes a.cert)] ++ optEntry kOcsp a.ocsp)
+
+def augCount (a : AugCert) : Nat :=
+  1 + (if a.ocsp.isSome then 1 else 0) + (if a.sct.isSome then 1 else 0)
+
+def optBytes (k : Bytes) : Option Bytes → Bytes
+  | some v => textItem k ++ encodeBytes v
+  | none => []
+
+/-- closed form of `AugmentedCertificate.EncodeTo` -/
+def encAug (a : AugCert) : Bytes :=
+  encodeHead 5 (augCount a) ++ optBytes kSct a.sct ++ (textItem kCert ++ encodeBytes a.cert) ++ optBytes kOcsp a.ocsp
+
+theorem encodeAugCert_eq (a : AugCert) : encodeAugCert a = encodeMap (augEntries a) := by
+  obtain ⟨c, o, s⟩ := a
+  cases o <;> cases s <;> rfl
+
+/-- the same entries with the spec's `tstr` / `bstr` items -/
+theorem augEntries_spec (a : AugCert) : augEntries a =
+    [(Spec.Sxg.tstr kCert, Spec.Sxg.bstr a.cert)] ++
+    (match a.ocsp with | some o => [(Spec.Sxg.tstr kOcsp, Spec.Sxg.bstr o)] | none => []) ++
+    (match a.sct with | some s => [(Spec.Sxg.tstr kSct, Spec.Sxg.bstr s)] | none => []) := by
+  obtain ⟨c, o, s⟩ := a
+  cases o <;> cases s <;> rfl
+
+theorem augEntries_length (a : AugCert) : (augEntries a).length = augCount a := by
+  obtain ⟨c, o, s⟩ := a
+  cases o <;> cases s <;> rfl
+
+theorem augCount_le (a : AugCert) : augCount a ≤ 3 := by
+  obtain ⟨c, o, s⟩ := a
+  cases o <;> cases s <;> simp [augCount]
+
+theorem key_order : ([textItem kSct, textItem kCert, textItem kOcsp] : List Bytes).Pairwise (fun a b => blt a b = true) := by
+  decide +kernel
+
+/-- "cert", "ocsp", "sct" have pairwise distinct encodings -/
+theorem augEntries_nodup (a : AugCert) : ((augEntries a).map Prod.fst).Nodup := by
+  obtain ⟨c, o, s⟩ := a
+  cases o <;> cases s
+  · show ([textItem kCert] : List Bytes).Nodup; decide +kernel
+  · show ([textItem kCert, textItem kSct] : List Bytes).Nodup; decide +kernel
+  · show ([textItem kCert, textItem kOcsp] : List Bytes).Nodup; decide +kernel
+  · show ([textItem kCert, textItem kOcsp, textItem kSct] : List Bytes).Nodup; decide +kernel
+
+theorem augSorted_perm (a : AugCert) : (augSorted a).Perm (augEntries a) := List.perm_append_comm
+
+theorem entryLe_pairwise_of_keys (l : List Entry) (h : (l.map Prod.fst).Pairwise (fun a b => ble a b = true)) :
+    l.Pairwise (fun a b => entryLe a b = true) := by
+  rw [List.pairwise_map] at h
+  exact h
+
+theorem augSorted_sorted (a : AugCert) : (augSorted a).Pairwise (fun x y => entryLe x y = true) := by
+  apply entryLe_pairwise_of_keys
+  obtain ⟨c, o, s⟩ := a
+  cases o <;> cases s
+  · show ([textItem kCert] : List Bytes).Pairwise _; decide +kernel
+  · show ([textItem kSct, textItem kCert] : List Bytes).Pairwise _; decide +kernel
+  · show ([textItem kCert, textItem kOcsp] : List Bytes).Pairwise _; decide +kernel
+  · show ([textItem kSct, textItem kCert, textItem kOcsp] : List Bytes).Pairwise _; decide +kernel
+
+/-- `EncodeMap` on distinct keys emits *the* key-sorted arrangement, whichever way it is found -/
+theorem encodeMap_of_sorted (es l : List Entry) (hp : l.Perm es) (hnd : (es.map Prod.fst).Nodup)
+    (hs : l.Pairwise (fun a b => entryLe a b = true)) :
+    encodeMap es = .ok (encodeHead 5 es.length ++ (l.map fun e => e.1 ++ e.2).flatten) := by
+  have e := C11.encodeMap_sort_independent es l hp hnd hs
+  have hd := (hasAdjDup_sort_iff es).mpr hnd
+  unfold encodeMap
+  simp only [hd, Bool.false_eq_true, if_false, encodeMapHeader]
+  rw [← e]
+
+theorem augSorted_flatten (a : AugCert) : ((augSorted a).map fun e => e.1 ++ e.2).flatten =
+    optBytes kSct a.sct ++ (textItem kCert ++ encodeBytes a.cert) ++ optBytes kOcsp a.ocsp := by
+  obtain ⟨c, o, s⟩ := a
+  cases o <;> cases s <;> simp [augSorted, optEntry, optBytes]
+
+/-- closed form: map head with the number of present fields, then `sct` (if present), `cert`,
+    `ocsp` (if present) -/
+theorem encodeAugCert_closed (a : AugCert) : encodeAugCert a = .ok (encAug a) := by
+  rw [encodeAugCert_eq, encodeMap_of_sorted _ _ (augSorted_perm a) (augEntries_nodup a) (augSorted_sorted a),
+    augSorted_flatten, augEntries_length]
+  simp only [encAug, List.append_assoc]
+
+theorem encodeAugCert_closed' (a : AugCert) : encodeAugCert a =
+    .ok (encodeHead 5 (1 + (if a.ocsp.isSome then 1 else 0) + (if a.sct.isSome then 1 else 0)) ++
+      (match a.sct with | some s => textItem kSct ++ encodeBytes s | none => []) ++
+      (textItem kCert ++ encodeBytes a.cert) ++
+      (match a.ocsp with | some o => textItem kOcsp ++ encodeBytes o | none => [])) := by
+  rw [encodeAugCert_closed]
+  obtain ⟨c, o, s⟩ := a
+  cases o <;> cases s <;> rfl
+
+/-- `EncodeTo` never fails -/
+theorem encodeAugCert_ok (a : AugCert) : ∃ out, encodeAugCert a = .ok out := ⟨_, encodeAugCert_closed a⟩
+
+/-- the same fact obtained from the duplicate-key criterion C11.T6 -/
+theorem encodeAugCert_no_dup (a : AugCert) : encodeAugCert a ≠ .error .duplicatedKey := by
+  rw [encodeAugCert_eq]
+  intro h
+  exact (C11.encodeMap_dup_iff _).mp h (augEntries_nodup a)
+
+theorem encAug_canonical (a : AugCert) : Spec.Sxg.IsCanonicalMap (encAug a) (augEntries a) :=
+  Sxg.encodeMap_isCanonical _ _ (by rw [← encodeAugCert_eq]; exact encodeAugCert_closed a)
+
+/-! ### 2. `Write` -/
+
+theorem encodeAll_eq (chain : List AugCert) : encodeAll chain = .ok (chain.map encAug).flatten := by
+  induction chain with
+  | nil => rfl
+  | cons a rest ih =>
+    rw [encodeAll]
+    simp only [bind, Except.bind, pure, Except.pure, encodeAugCert_closed, ih, List.map_cons, List.flatten_cons]
+
+theorem write_eq (chain : List AugCert) : write chain =
+    if validate chain = true then
+      some (encodeHead 4 (chain.length + 1) ++ textItem magic ++ (chain.map encAug).flatten)
+    else none := by
+  unfold write
+  rw [encodeAll_eq]
+  cases hv : validate chain <;> simp [encodeArrayHeader]
+
+/-- `Write` succeeds exactly on chains accepted by `Validate` -/
+theorem write_iff_validate (chain : List AugCert) : (write chain).isSome = true ↔ validate chain = true := by
+  rw [write_eq]
+  cases hv : validate chain <;> simp
+
+theorem write_some (chain : List AugCert) (out : Bytes) (h : write chain = some out) :
+    validate chain = true ∧
+      out = encodeHead 4 (chain.length + 1) ++ textItem magic ++ (chain.map encAug).flatten := by
+  rw [write_eq] at h
+  by_cases hv : validate chain = true
+  · rw [if_pos hv] at h
+    injection h with h
+    exact ⟨hv, h.symm⟩
+  · rw [if_neg hv] at h; cases h
+
+/-! ### 3. the file is an array of the magic string and one canonical map per certificate -/
+
+theorem write_canonical_pairs (chain : List AugCert) (out : Bytes) (h : write chain = some out) :
+    ∃ items : List Bytes, items.length = chain.length ∧
+      out = encodeHead 4 (chain.length + 1) ++ textItem magic ++ items.flatten ∧
+      ∀ i (hi : i < chain.length), Spec.Sxg.IsCanonicalMap (items.getD i []) (augEntries chain[i]) := by
+  obtain ⟨_, ho⟩ := write_some chain out h
+  refine ⟨chain.map encAug, List.length_map _, ho, ?_⟩
+  intro i hi
+  have : (chain.map encAug).getD i [] = encAug chain[i] := by
+    simp [List.getD_eq_getElem?_getD, hi]
+  rw [this]
+  exact encAug_canonical _
+
+theorem write_canonical (chain : List AugCert) (out : Bytes) (h : write chain = some out) :
+    ∃ items : List Bytes, items.length = chain.length ∧
+      out = encodeHead 4 (chain.length + 1) ++ textItem magic ++ items.flatten ∧
+      ∀ i, i < chain.length → ∃ pairs, Spec.Sxg.IsCanonicalMap (items.getD i []) pairs := by
+  obtain ⟨items, h1, h2, h3⟩ := write_canonical_pairs chain out h
+  exact ⟨items, h1, h2, fun i hi => ⟨_, h3 i hi⟩⟩
+
+/-! ### 4. `ReadCertChain ∘ Write = id` -/
+
+theorem magic_utf8 : utf8Valid magic = true := by decide +kernel
+
+theorem isString_textItem (k : Bytes) (hk : k.length < 2 ^ 64) : Spec.Cbor.IsString 3 (textItem k) k :=
+  ⟨_, encodeHead_isHead 3 _ (by decide) hk, rfl⟩
+
+theorem decodeEntries_zero (parseOk : Bytes → Bool) (bs : Bytes) (acc : Option Bytes × Option Bytes × Option Bytes) :
+    decodeEntries parseOk 0 bs acc = some (acc, bs) := by
+  rw [decodeEntries]
+
+/-- one iteration of the entry loop on an entry written by the encoder -/
+theorem decodeEntries_step (parseOk : Bytes → Bool) (n : Nat) (k v rest : Bytes)
+    (acc : Option Bytes × Option Bytes × Option Bytes)
+    (hu : utf8Valid k = true) (hk : k.length < 2 ^ 63) (hv : v.length < 2 ^ 63) :
+    decodeEntries parseOk (n + 1) (textItem k ++ (encodeBytes v ++ rest)) acc =
+      if k = kCert then (if parseOk v then decodeEntries parseOk n rest (some v, acc.2.1, acc.2.2) else none)
+      else if k = kOcsp then decodeEntries parseOk n rest (acc.1, some v, acc.2.2)
+      else if k = kSct then decodeEntries parseOk n rest (acc.1, acc.2.1, some v)
+      else decodeEntries parseOk n rest acc := by
+  rw [decodeEntries, C12.decodeText_complete _ _ (isString_textItem k (by omega)) hk hu]
+  simp only
+  rw [C12.roundtrip_bytes v hv]
+
+theorem step_cert (parseOk : Bytes → Bool) (n : Nat) (v rest : Bytes) (acc : Option Bytes × Option Bytes × Option Bytes)
+    (hp : parseOk v = true) (hv : v.length < 2 ^ 63) :
+    decodeEntries parseOk (n + 1) (textItem kCert ++ (encodeBytes v ++ rest)) acc =
+      decodeEntries parseOk n rest (some v, acc.2.1, acc.2.2) := by
+  rw [decodeEntries_step parseOk n kCert v rest acc (by decide +kernel) (by decide) hv, if_pos rfl, if_pos hp]
+
+theorem step_ocsp (parseOk : Bytes → Bool) (n : Nat) (v rest : Bytes) (acc : Option Bytes × Option Bytes × Option Bytes)
+    (hv : v.length < 2 ^ 63) :
+    decodeEntries parseOk (n + 1) (textItem kOcsp ++ (encodeBytes v ++ rest)) acc =
+      decodeEntries parseOk n rest (acc.1, some v, acc.2.2) := by
+  rw [decodeEntries_step parseOk n kOcsp v rest acc (by decide +kernel) (by decide) hv, if_neg (by decide), if_pos rfl]
+
+theorem step_sct (parseOk : Bytes → Bool) (n : Nat) (v rest : Bytes) (acc : Option Bytes × Option Bytes × Option Bytes)
+    (hv : v.length < 2 ^ 63) :
+    decodeEntries parseOk (n + 1) (textItem kSct ++ (encodeBytes v ++ rest)) acc =
+      decodeEntries parseOk n rest (acc.1, acc.2.1, some v) := by
+  rw [decodeEntries_step parseOk n kSct v rest acc (by decide +kernel) (by decide) hv, if_neg (by decide),
+    if_neg (by decide), if_pos rfl]
+
+/-- `DecodeAugmentedCertificateFrom` inverts `EncodeTo` and consumes exactly the map -/
+theorem decodeAugCert_encAug (parseOk : Bytes → Bool) (a : AugCert) (rest : Bytes)
+    (hp : parseOk a.cert = true) (hc : a.cert.length < 2 ^ 63)
+    (ho : ∀ o, a.ocsp = some o → o.length < 2 ^ 63) (hs : ∀ s, a.sct = some s → s.length < 2 ^ 63) :
+    decodeAugCert parseOk (encAug a ++ rest) = some (a, rest) := by
+  obtain ⟨c, o, s⟩ := a
+  unfold decodeAugCert
+  cases o with
+  | none =>
+    cases s with
+    | none =>
+      have e : encAug ⟨c, none, none⟩ ++ rest = encodeMapHeader (0 + 1) ++ (textItem kCert ++ (encodeBytes c ++ rest)) := by
+        simp [encAug, augCount, optBytes, encodeMapHeader]
+      rw [e, C12.roundtrip_mapHeader _ (by decide)]
+      simp only [step_cert parseOk _ c _ _ hp hc, decodeEntries_zero]
+    | some s =>
+      have hs' := hs s rfl
+      have e : encAug ⟨c, none, some s⟩ ++ rest =
+          encodeMapHeader (0 + 1 + 1) ++ (textItem kSct ++ (encodeBytes s ++ (textItem kCert ++ (encodeBytes c ++ rest)))) := by
+        simp [encAug, augCount, optBytes, encodeMapHeader]
+      rw [e, C12.roundtrip_mapHeader _ (by decide)]
+      simp only [step_sct parseOk _ s _ _ hs', step_cert parseOk _ c _ _ hp hc, decodeEntries_zero]
+  | some o =>
+    have ho' := ho o rfl
+    cases s with
+    | none =>
+      have e : encAug ⟨c, some o, none⟩ ++ rest =
+          encodeMapHeader (0 + 1 + 1) ++ (textItem kCert ++ (encodeBytes c ++ (textItem kOcsp ++ (encodeBytes o ++ rest)))) := by
+        simp [encAug, augCount, optBytes, encodeMapHeader]
+      rw [e, C12.roundtrip_mapHeader _ (by decide)]
+      simp only [step_ocsp parseOk _ o _ _ ho', step_cert parseOk _ c _ _ hp hc, decodeEntries_zero]
+    | some s =>
+      have hs' := hs s rfl
+      have e : encAug ⟨c, some o, some s⟩ ++ rest =
+          encodeMapHeader (0 + 1 + 1 + 1) ++ (textItem kSct ++ (encodeBytes s ++ (textItem kCert ++ (encodeBytes c ++
+            (textItem kOcsp ++ (encodeBytes o ++ rest)))))) := by
+        simp [encAug, augCount, optBytes, encodeMapHeader]
+      rw [e, C12.roundtrip_mapHeader _ (by decide)]
+      simp only [step_sct parseOk _ s _ _ hs', step_ocsp parseOk _ o _ _ ho', step_cert parseOk _ c _ _ hp hc,
+        decodeEntries_zero]
+
+theorem decodeCerts_encAll (parseOk : Bytes → Bool) (chain : List AugCert)
+    (hp : ∀ a ∈ chain, parseOk a.cert = true)
+    (hlen : ∀ a ∈ chain, a.cert.length < 2 ^ 63 ∧ (∀ o, a.ocsp = some o → o.length < 2 ^ 63) ∧
+      (∀ s, a.sct = some s → s.length < 2 ^ 63)) :
+    ∀ (acc : List AugCert) (rest : Bytes),
+      decodeCerts parseOk chain.length ((chain.map encAug).flatten ++ rest) acc = some (acc ++ chain, rest) := by
+  induction chain with
+  | nil =>
+    intro acc rest
+    simp [decodeCerts]
+  | cons a r ih =>
+    intro acc rest
+    have ha := hlen a (List.mem_cons_self ..)
+    simp only [List.length_cons, List.map_cons, List.flatten_cons, List.append_assoc]
+    rw [decodeCerts, decodeAugCert_encAug parseOk a _ (hp a (List.mem_cons_self ..)) ha.1 ha.2.1 ha.2.2]
+    simp only
+    rw [ih (fun x hx => hp x (List.mem_cons_of_mem _ hx)) (fun x hx => hlen x (List.mem_cons_of_mem _ hx))]
+    simp
+
+/-- every certificate's DER, the OCSP response and the SCT list come back byte for byte -/
+theorem read_write (parseOk : Bytes → Bool) (chain : List AugCert) (out : Bytes) (h : write chain = some out)
+    (hp : ∀ a ∈ chain, parseOk a.cert = true)
+    (hlen : ∀ a ∈ chain, a.cert.length < 2 ^ 63 ∧ (∀ o, a.ocsp = some o → o.length < 2 ^ 63) ∧
+      (∀ s, a.sct = some s → s.length < 2 ^ 63))
+    (hn : chain.length + 1 < 2 ^ 64) : read parseOk out = some chain := by
+  obtain ⟨hv, ho⟩ := write_some chain out h
+  subst ho
+  have hne : ¬ chain.length + 1 < 2 := by
+    cases chain with
+    | nil => simp [validate] at hv
+    | cons a r => simp
+  have hd := decodeCerts_encAll parseOk chain hp hlen [] []
+  rw [List.append_nil, List.nil_append] at hd
+  unfold read
+  rw [List.append_assoc, show encodeHead 4 (chain.length + 1) = encodeArrayHeader (chain.length + 1) from rfl,
+    C12.roundtrip_arrayHeader _ hn]
+  simp only
+  rw [if_neg hne, C12.decodeText_complete _ _ (isString_textItem magic (by decide)) (by decide) magic_utf8]
+  simp only
+  rw [if_neg (fun hx => hx rfl), Nat.add_sub_cancel, hd]
+  simp only [hv, if_true]
+
+/-! ### 5. what `ReadCertChain` returns -/
+
+theorem decodeEntries_cert_ok (parseOk : Bytes → Bool) : ∀ (n : Nat) (bs : Bytes)
+    (acc res : Option Bytes × Option Bytes × Option Bytes) (rest : Bytes),
+    decodeEntries parseOk n bs acc = some (res, rest) → (∀ c, acc.1 = some c → parseOk c = true) →
+    ∀ c, res.1 = some c → parseOk c = true := by
+  intro n
+  induction n with
+  | zero =>
+    intro bs acc res rest h hacc
+    rw [decodeEntries] at h
+    injection h with h
+    injection h with h1 h2
+    subst h1
+    exact hacc
+  | succ n ih =>
+    intro bs acc res rest h hacc
+    rw [decodeEntries] at h
+    cases ht : decodeTextString bs with
+    | none => simp only [ht] at h; cases h
+    | some p =>
+      obtain ⟨key, bs1⟩ := p
+      simp only [ht] at h
+      cases hb : decodeByteString bs1 with
+      | none => simp only [hb] at h; cases h
+      | some q =>
+        obtain ⟨value, bs2⟩ := q
+        simp only [hb] at h
+        by_cases k1 : key = kCert
+        · rw [if_pos k1] at h
+          by_cases hp : parseOk value = true
+          · rw [if_pos hp] at h
+            refine ih _ _ _ _ h ?_
+            intro c hc
+            have hc' : some value = some c := hc
+            injection hc' with hc'
+            subst hc'
+            exact hp
+          · rw [if_neg hp] at h; cases h
+        · rw [if_neg k1] at h
+          by_cases k2 : key = kOcsp
+          · rw [if_pos k2] at h; exact ih _ _ _ _ h hacc
+          · rw [if_neg k2] at h
+            by_cases k3 : key = kSct
+            · rw [if_pos k3] at h; exact ih _ _ _ _ h hacc
+            · rw [if_neg k3] at h; exact ih _ _ _ _ h hacc
+
+theorem decodeAugCert_cert_ok (parseOk : Bytes → Bool) (bs : Bytes) (a : AugCert) (rest : Bytes)
+    (h : decodeAugCert parseOk bs = some (a, rest)) : parseOk a.cert = true := by
+  unfold decodeAugCert at h
+  cases hm : decodeMapHeader bs with
+  | none => simp only [hm] at h; cases h
+  | some p =>
+    obtain ⟨m, bs1⟩ := p
+    simp only [hm] at h
+    cases he : decodeEntries parseOk m bs1 (none, none, none) with
+    | none => simp only [he] at h; cases h
+    | some q =>
+      obtain ⟨⟨oc, o, s⟩, rest'⟩ := q
+      simp only [he] at h
+      cases oc with
+      | none => simp only at h; cases h
+      | some c =>
+        simp only at h
+        injection h with h
+        injection h with h1 h2
+        subst h1
+        exact decodeEntries_cert_ok parseOk m bs1 (none, none, none) (some c, o, s) rest' he
+          (fun c hc => by cases hc) c rfl
+
+theorem decodeCerts_cert_ok (parseOk : Bytes → Bool) : ∀ (n : Nat) (bs : Bytes) (acc l : List AugCert) (rest : Bytes),
+    decodeCerts parseOk n bs acc = some (l, rest) → (∀ a ∈ acc, parseOk a.cert = true) →
+    ∀ a ∈ l, parseOk a.cert = true := by
+  intro n
+  induction n with
+  | zero =>
+    intro bs acc l rest h hacc
+    rw [decodeCerts] at h
+    injection h with h
+    injection h with h1 h2
+    subst h1
+    exact hacc
+  | succ n ih =>
+    intro bs acc l rest h hacc
+    rw [decodeCerts] at h
+    cases hd : decodeAugCert parseOk bs with
+    | none => simp only [hd] at h; cases h
+    | some p =>
+      obtain ⟨a, r⟩ := p
+      simp only [hd] at h
+      refine ih _ _ _ _ h ?_
+      intro x hx
+      rcases List.mem_append.mp hx with hx | hx
+      · exact hacc x hx
+      · rw [List.mem_singleton] at hx
+        subst hx
+        exact decodeAugCert_cert_ok parseOk bs _ r hd
+
+/-- only chains whose first element carries an OCSP response and whose later elements carry none
+    are returned, and every returned certificate was accepted by the X.509 parser -/
+theorem read_validates (parseOk : Bytes → Bool) (bs : Bytes) (chain : List AugCert)
+    (h : read parseOk bs = some chain) : validate chain = true ∧ ∀ a ∈ chain, parseOk a.cert = true := by
+  unfold read at h
+  cases ha : decodeArrayHeader bs with
+  | none => simp only [ha] at h; cases h
+  | some p =>
+    obtain ⟨n, bs1⟩ := p
+    simp only [ha] at h
+    by_cases hn : n < 2
+    · rw [if_pos hn] at h; cases h
+    · rw [if_neg hn] at h
+      cases ht : decodeTextString bs1 with
+      | none => simp only [ht] at h; cases h
+      | some q =>
+        obtain ⟨m, bs2⟩ := q
+        simp only [ht] at h
+        by_cases hm : m ≠ magic
+        · rw [if_pos hm] at h; cases h
+        · rw [if_neg hm] at h
+          cases hd : decodeCerts parseOk (n - 1) bs2 [] with
+          | none => simp only [hd] at h; cases h
+          | some r =>
+            obtain ⟨l, rest⟩ := r
+            simp only [hd] at h
+            by_cases hv : validate l = true
+            · rw [if_pos hv] at h
+              injection h with h
+              subst h
+              exact ⟨hv, decodeCerts_cert_ok parseOk _ _ _ _ _ hd (fun a ha => by cases ha)⟩
+            · rw [if_neg hv] at h; cases h
+
 end WebPkg.CertChain
